@@ -9,3 +9,6 @@ type pollFd struct {
 }
 
 func ptr(p *pollFd) unsafe.Pointer { return unsafe.Pointer(p) }
+
+func ptr32(p *uint32) unsafe.Pointer  { return unsafe.Pointer(p) }
+func ptrLen(p *uint32) unsafe.Pointer { return unsafe.Pointer(p) }
